@@ -8,7 +8,7 @@ CONF = dict(
              'the group order n is a literal in Model/Scalar.v; the harness compares its own copy with btcec.S256().N and K exercises n-1, n, n+1 against libsecp',
              'buffer ownership model (caller / package-level Zero / fresh local) instead of a full heap: argument immutability is the statement that no in-place libsecp call targets a buffer that is not a fresh copy'],
     assumptions=[],
-    explanation='theorems: for all 64-bit values and all scalars that are absent or 32 bytes below n each helper answers and the answer is value*ab+vb, scalar+value*ab+vb, a-b modulo n (nil = 0; equal operands and results wrapping to zero give 32 zero bytes) — full totality statements since the repair 9f323e4; what is still refused lies outside the domain and is characterised exactly over all byte strings for SubtractScalars and CalculateScalarOffset (wrong lengths not caught by the equal-operands branch, different byte strings congruent modulo n, a value blinder >= n with a non-zero sum); no helper writes to an argument, for every input. K: whole result line (outcome class, result bytes incl. nil vs 32 bytes, whether the package-level Zero slice is returned, argument contents after the call) on generated triples biased to 0, 1, 2, n-1, n-2, (n+-1)/2, equal / negated / cancelling operands, nil vs 32 zero bytes vs empty, wrong lengths, values >= n. S: arithmetic against math/big in the property domain (any error there is a failure), guard bytes in front of and behind every argument (spare capacity), package-level Zero unchanged, zkpGenerator methods agree with the package functions.',
+    explanation='theorems: for all 64-bit values and all scalars that are absent or 32 bytes below n each helper answers and the answer is value*ab+vb, scalar+value*ab+vb, a-b modulo n (nil = 0; equal operands and results wrapping to zero give 32 zero bytes) — full totality statements since the repair 9f323e4; what is still refused lies outside the domain and is characterised exactly over all byte strings for SubtractScalars and CalculateScalarOffset (wrong lengths not caught by the equal-operands branch, different byte strings congruent modulo n, a value blinder >= n with a non-zero sum); no helper writes to an argument, for every input. K: whole result line (outcome class, result bytes incl. nil vs 32 bytes, whether the package-level Zero slice is returned, argument contents after the call) on generated triples biased to 0, 1, 2, n-1, n-2, (n+-1)/2, equal / negated / cancelling operands, structured scalars (single bit 2^i for every i, single byte, single 64-bit limb, their complements), nil vs 32 zero bytes vs empty, wrong lengths, values >= n. S: arithmetic against math/big in the property domain (any error there is a failure), guard bytes in front of and behind every argument (spare capacity), package-level Zero unchanged, zkpGenerator methods agree with the package functions.',
 )
 
 TEXT = dict(
